@@ -8,6 +8,9 @@ CONSTANTS
   AllowTerm <- McAllowTerm
   AllowClose <- McAllowClose
   AllowPop = TRUE
+  Adv = {}
+  AdvMoves = {}
+  MaxAdv = 0
   Dev = {}
   Enforced <- McEnforced
   Known = {}
